@@ -96,6 +96,16 @@ def gen_queries(tier, seed):
             lines.append(f"ds index $10 {key}")
             lines.append(f"ds size $10 {key}")
             lines.append(f"ds contains $10 {key}")
+        # keys that merely contain / are contained in letters and names: several letters at once, a
+        # name cut short or extended, the empty text
+        odd = ["<empty>", "".join(xs) or "ab", "".join(letters[:2]), "zz"]
+        if xs:
+            odd += [NAME[xs[0]] + NAME[xs[0]][:1], NAME[xs[-1]][:-1] + "q", xs[0] + "z"]
+        for key in odd:
+            if len(key) == 1 or key in NAME.values():
+                continue
+            lines.append(f"ds contains $10 {key}")
+            lines.append(f"ds lookup $10 {key}")
         for i in range(-len(xs) - 1, len(xs) + 1):
             lines.append(f"ds getidx $10 {i}")
         # a requested dimension that is missing
